@@ -22,8 +22,10 @@ LEVEL = 'exploration'
 RULE = ('(t) one case = (position of the timed phase in {plain, group setup, group main, group '
         'teardown}, time-out in {10 s, 1 s, 0, default 180 s}, body end relative to the deadline '
         'in {-2P, -eps, +eps, +P-eps, +P+eps, never (killable), never (unkillable), unkillable '
-        'then acts later, -2P with the thread kept alive past the deadline by a slow log handler}, repeat_on_timeout yes/no, own result CONTINUE / FAIL_AND_CONTINUE) '
-        'with P = the join poll interval, all enumerated; (k) one case = (kill scenario, pause '
+        'then acts later, -2P with the thread kept alive past the deadline by a slow log handler}, '
+        'phase profiling on/off, repeat_on_timeout yes/no, own result CONTINUE / FAIL_AND_CONTINUE) '
+        'with P = the join poll interval, all enumerated; (m) a monitored phase abandoned alive '
+        'after its time-out, followed by a phase monitoring a measurement of the same name; (k) one case = (kill scenario, pause '
         'point (function, line, hit) of threads.py reached by the killable thread or by the '
         'killer), all enumerated; distinct = distinct case; non-trivial = the timed body / the '
         'killable thread was started (or provably prevented) and the record / event log judged')
@@ -33,6 +35,7 @@ ASSUMPTIONS = [
     'an abandoned body can only act later if it swallows the termination request',
 ]
 REQUIRED_COUNTERS = ['timing_cases', 'timeouts_observed', 'own_results_kept', 'slow_exits',
+                     'monitor_samples_judged',
                      'kill_schedules', 'kills_performed', 'bodies_prevented',
                      'bodies_killed', 'kills_without_effect']
 EXHAUSTIVE = {'quick': True, 'thorough': True}
@@ -82,6 +85,15 @@ def enumerated(tier):
               continue
             yield {'k': 't', 'pos': pos, 'timeout': tmo, 'end': end,
                    'repeat': rep, 'own': own}
+  # with phase profiling switched on (execute(profile_filename=...))
+  for pos in ('plain', 'main'):
+    for end in ('-2P', 'never', 'unkillable', 'early_slow_exit'):
+      for rep in (False, True):
+        yield {'k': 't', 'pos': pos, 'timeout': 10, 'end': end, 'repeat': rep,
+               'own': 'C', 'profile': True}
+  for pos in ('main', 'teardown'):
+    for rep in (False, True):
+      yield {'k': 'm', 'pos': pos, 'repeat': rep}
   for scen in ('kill_at_target_line', 'held_in_kill', 'kill_before_start',
                'kill_after_exit', 'kill_twice', 'kill_raising_body',
                'kill_mid_body'):
@@ -241,9 +253,22 @@ def run_timing(case):
 
     slow = SlowExitHandler(level=logging.DEBUG)
     logging.getLogger('openhtf').addHandler(slow)
+  prof = None
+  if case.get('profile'):
+    import tempfile
+    fd, prof = tempfile.mkstemp(prefix='vf-c12-prof-')
+    os.close(fd)
   try:
-    t.execute()
+    if prof:
+      t.execute(profile_filename=prof)
+    else:
+      t.execute()
   finally:
+    if prof:
+      try:
+        os.unlink(prof)
+      except OSError:
+        pass
     if slow is not None:
       logging.getLogger('openhtf').removeHandler(slow)
       c['slow_exits'] = 1 if any(e[2] == 'slow_exit' for e in log.events) else 0
@@ -251,7 +276,8 @@ def run_timing(case):
     release.set()
     pm.prune_handlers()
   wall = time.monotonic() - wall0
-  ctx = {'case': {k: case[k] for k in ('pos', 'timeout', 'end', 'repeat', 'own')},
+  ctx = {'case': {k: case.get(k) for k in ('pos', 'timeout', 'end', 'repeat', 'own',
+                                           'profile')},
          'deadline': d, 'P': P}
 
   def bad(mech, **k):
@@ -352,6 +378,87 @@ def run_timing(case):
   bad_crash = [x for x in crashes if x[0] != 'ThreadTerminationError']
   if bad_crash:
     bad('framework-thread-crashed:' + bad_crash[0][0], crashes=bad_crash[:2])
+  return {'sig': case, 'violations': viol, 'counters': c}
+
+
+# ------------------------------------------------------------------ (m)
+def run_monitor(case):
+  """A monitored phase (openhtf.core.monitors) times out with its body blocked
+  in a C wait: the body is abandoned alive, so its monitor thread keeps
+  sampling.  A later phase monitors a measurement of the same name.  Every
+  sample in a phase's record must come from that phase's own probe."""
+  H = pm.htf()
+  from openhtf.core import monitors
+  vc = pm._H['vc']  # pylint: disable=protected-access
+  viol = []
+  c = {'timing_cases': 1, 'timeouts_observed': 0, 'own_results_kept': 0,
+       'monitor_cases': 1, 'monitor_samples_judged': 0}
+  release = threading.Event()
+  counts = {'soak': 0, 'cool': 0}
+
+  def probe_soak():
+    counts['soak'] += 1
+    return 1000 + counts['soak']
+
+  def probe_cool():
+    counts['cool'] += 1
+    return 2000 + counts['cool']
+
+  @H.PhaseOptions(timeout_s=1, repeat_on_timeout=case['repeat'])
+  @monitors.monitors('temperature', probe_soak, poll_interval_ms=3)
+  def soak(test):
+    if counts.get('soak_runs'):
+      return None          # second attempt under repeat_on_timeout
+    counts['soak_runs'] = 1
+    try:
+      with vc.cv:
+        vc.hung.add(threading.current_thread())
+        vc.cv.notify_all()
+      release.wait(30)
+    except BaseException:  # pylint: disable=broad-except
+      pass
+
+  @monitors.monitors('temperature', probe_cool, poll_interval_ms=3)
+  def cool(test):
+    t_end = time.monotonic() + 0.06     # real time: the monitors poll in real time
+    while time.monotonic() < t_end:
+      time.sleep(0.002)
+
+  if case['pos'] == 'teardown':
+    nodes = [H.PhaseGroup(main=[soak], teardown=[cool])]
+  else:
+    nodes = [H.PhaseGroup(setup=[], main=[soak], teardown=[cool])] \
+        if not case['repeat'] else [H.PhaseGroup(main=[soak], teardown=[cool])]
+  t = H.Test(*nodes)
+  recs = []
+  t.add_output_callbacks(recs.append)
+  old_hook = threading.excepthook
+  threading.excepthook = lambda a: None
+  try:
+    t.execute()
+  finally:
+    threading.excepthook = old_hook
+    release.set()
+    pm.prune_handlers()
+  ctx = {'case': {k: case.get(k) for k in ('pos', 'repeat')}}
+  if not recs:
+    viol.append({'mechanism': 'no-record', 'detail': ctx})
+    return {'sig': case, 'violations': viol, 'counters': c}
+  for p in recs[0].phases:
+    m = p.measurements.get('temperature')
+    if m is None or not m.measured_value.is_value_set:
+      continue
+    vals = [v[-1] for v in m.measured_value.value]
+    c['monitor_samples_judged'] += len(vals)
+    lo, hi = (1000, 2000) if p.name == 'soak' else (2000, 3000)
+    foreign = [v for v in vals if not lo < v < hi]
+    if p.name == 'soak' and pm.res_name(p.result) == 'TIMEOUT':
+      c['timeouts_observed'] = 1
+    if foreign:
+      viol.append({'mechanism': 'abandoned-monitor-wrote-into-another-phase-record'
+                   if p.name == 'cool' else 'foreign-samples-in-phase-record',
+                   'detail': dict(ctx, phase=p.name, foreign=foreign[:4],
+                                  samples=len(vals))})
   return {'sig': case, 'violations': viol, 'counters': c}
 
 
@@ -623,4 +730,6 @@ def run_kill(case):
 
 
 def run_case(case):
+  if case['k'] == 'm':
+    return run_monitor(case)
   return run_timing(case) if case['k'] == 't' else run_kill(case)
